@@ -122,7 +122,7 @@ def load_task(task):
             cluster_file = None
             assign = None
             if clustered:
-                crow, assign = inputs.make_clusters(rng, [r for r in rows], int(rng.integers(1, 4)))
+                crow, assign = inputs.make_clusters(rng, [r for r in rows], int(rng.integers(1, 4)), textual_ids=c % 12 == 11)
                 cluster_file = os.path.join(tmp, "cl.tsv")
                 inputs.write_table(crow, cluster_file)
             results = []
